@@ -1,6 +1,7 @@
 import SqlObjVerif.Model.FailX
 import SqlObjVerif.Model.FailCreateX
 import SqlObjVerif.Model.FailDestroyInhX
+import SqlObjVerif.Model.FailOpXInh
 /-!
 # C06 — the operations of `Model/Fail.lean` that are TIED to the translated source, as one function
 
@@ -18,7 +19,7 @@ namespace SqlObjVerif.PyFail
 open SqlObjVerif.Fail (Err Schema Inj Extra In Op clsOf)
 
 /-- what a Python call of a tied operation can express -/
-def Tied (sch : Schema) : Op → Prop
+def Tied (sch : Schema) (s : Fail.St) : Op → Prop
   | .setattr c _ col _ => col < (clsOf sch c).cols.length
   | .set c _ kw _ => (∀ e ∈ kw, e.1 < (clsOf sch c).cols.length) ∧ (kw.map (·.1)).Nodup
   /- `kw`: the keywords given followed by the defaulted columns (the theorem about `createF` itself takes the
@@ -26,9 +27,14 @@ def Tied (sch : Schema) : Op → Prop
   | .create c missing kw ex => ex = [] ∧ (∀ e ∈ kw, e.1 < (clsOf sch c).cols.length) ∧ (kw.map (·.1)).Nodup ∧
       (missing = true → (List.range (clsOf sch c).cols.length).any (fun j => !PyCreate.hasKey kw j) = true)
   | .destroy _ _ => True
-  | _ => False
+  /- `_SO_createValues` is a dict of columns: distinct, in range -/
+  | .sync c id => ((Fail.pendingOf { s with n := 0, log := [] } c id).map (·.1)).Nodup ∧
+      ∀ e ∈ Fail.pendingOf { s with n := 0, log := [] } c id, e.1 < (clsOf sch c).cols.length
+  /- the inheritable create: the level lists are what ONE Python call `Leaf(**kw)` produces (`Fail.InhX.TiedInh`) -/
+  | .createChild c pkw ckw => Fail.InhX.TiedInh sch s (.createChild c pkw ckw)
+  | .createChain levels => Fail.InhX.TiedInh sch s (.createChain levels)
 
-instance (sch : Schema) (op : Op) : Decidable (Tied sch op) := by
+instance (sch : Schema) (s : Fail.St) (op : Op) : Decidable (Tied sch s op) := by
   unfold Tied; cases op <;> infer_instance
 
 /-- the Python keywords standing for the extra keywords `ex` of the hand model (which have no names there): the
@@ -46,18 +52,25 @@ def stepXO (sch : Schema) (props : Nat → Extra) (s : Fail.St) (op : Op) (inj :
   | .setattr c id col v => setValueF (mkW sch inj props s0 c id (vqOf [(col, v)])) col v
   | .set c id kw ex =>
     setF (mkW sch inj (propsOf (clsOf sch c).cols.length ex) s0 c id (vqOf kw)) (kwPV (kw ++ exKw (clsOf sch c).cols.length ex))
+  | .sync c id => syncUpdateF (mkW sch inj props s0 c id [])
   | .create c missing kw _ => PyCreate.createF (fun _ => none) (fun _ => !missing) sch inj props s0 c (vqOf kw) none kw
   | _ => .stuck
 
 /-- the end of the translated run of `op`: the hand-model state it ends in (ghost counter included) and the error, if
     it raised; `none`: stuck / not tied / lock or suppress flag left set.  `destroySelf` runs the translated
     `SQLObject.destroySelf` / `InheritableSQLObject.destroySelf` with dynamic dispatch (`FailDX.destroyI`: every class
-    with a parent is an InheritableSQLObject child), the budget for nested `destroySelf()` calls being `fuelOf` -/
+    with a parent is an InheritableSQLObject child), the budget for nested `destroySelf()` calls being `fuelOf`;
+    the inheritable create runs the translated `InheritableSQLObject._create` along the class chain with the
+    translated `SQLObject._create` and the translated `destroySelf` as its callees (`Fail.InhX.stepXInh`) -/
 def stepXS (sch : Schema) (props : Nat → Extra) (s : Fail.St) (op : Op) (inj : Option Inj) : Option (Fail.St × Option Err) :=
   match op with
   | .destroy c id =>
     FailDX.destroyI sch inj (fun c => (clsOf sch c).parent.isSome) (Fail.fuelOf { s with n := 0, log := [] }) c id
       { s with n := 0, log := [] }
+  | .createChild c pkw ckw =>
+    if Fail.InhX.TiedInh sch s (.createChild c pkw ckw) then Fail.InhX.stepXInh sch s (.createChild c pkw ckw) inj else none
+  | .createChain levels =>
+    if Fail.InhX.TiedInh sch s (.createChain levels) then Fail.InhX.stepXInh sch s (.createChain levels) inj else none
   | _ => (stepXO sch props s op inj).view
 
 /-- … read as an observation and the error -/
